@@ -44,7 +44,7 @@ RPC_EXEMPT = {'next_from_generator': 'legacy stub: no server binding and no'
 
 
 def run(ctx: Ctx):
-  for r in (r1, r2, r3, r4):
+  for r in (r1, r2, r3, r4, r5):
     ctx.guard(r)
 
 
@@ -384,6 +384,40 @@ def r4(ctx: Ctx):
   else:
     ctx.fail(rule, ii, '_init_iterator: if self._shutdown_requested: return TimeoutError(...)',
              'a shutting-down server still accepts a new generator', node=ii.node)
+  # every way into the tear-down has the flag set (explicit request or idle
+  # timeout): the wait loop is left only with _shutdown_requested true
+  ru = repo.func(CS, 'CourierServer.run_until_shutdown')
+  g = cfgm.cfg_of(ru.node)
+  down = [n for n in g.nodes if any(isinstance(x, ast.Call) and unparse(x.func) == 'self._shutdown_server'
+                                   for x in cfgm.node_exprs(n))]
+  loopc = [c for c in g.nodes if c.kind == 'cond' and getattr(c, 'is_loop', False)
+           and '_shutdown_requested' in unparse(c.ast)]
+  setf = lambda n: isinstance(n.ast, ast.Assign) and is_self_attr(n.ast.targets[0], '_shutdown_requested') and (
+      isinstance(n.ast.value, ast.Constant) and n.ast.value.value is True)
+  if not down or not loopc:
+    ctx.fail(rule, ru, 'run_until_shutdown: while not self._shutdown_requested: ...; self._shutdown_server()',
+             'the serving loop no longer waits on the shutdown flag before tearing down', node=ru.node)
+  else:
+    c = loopc[0]
+    neg = isinstance(c.ast, ast.UnaryOp) and isinstance(c.ast.op, ast.Not)
+    exit_lab = 'false' if neg else 'true'
+
+    def edge_ok(a, b, lab, c=c):
+      if lab in ('exc', 'close'):
+        return False
+      if a is c and lab == exit_lab:
+        return False          # left the loop because the flag was observed true
+      return True
+
+    w = g.must_pass(c, down, setf, edge_ok)
+    if w is None:
+      ctx.ok(rule, ru, 'tear-down is entered only with _shutdown_requested set', down[0].ast)
+    else:
+      ctx.fail(rule, ru, 'run_until_shutdown: self._shutdown_requested = True before leaving the loop',
+               'the server can start tearing down (idle timeout) without'
+               ' marking itself as shutting down: requests arriving during the'
+               ' tear-down get the raw error or hang instead of a retriable'
+               ' TimeoutError', node=down[0].ast, witness=w)
   nb = repo.func(CS, 'PrefetchedCourierServer._next_batch')
   g = cfgm.cfg_of(nb.node)
   ok = any(sd(c) and any(sub(s) for s, lab in c.succ if lab == 'true') for c in g.nodes)
@@ -393,7 +427,50 @@ def r4(ctx: Ctx):
     ctx.fail(rule, nb, '_next_batch: if self._shutdown_requested: e = TimeoutError(...)',
              'a generator stopped by shutdown is reported as failed instead of'
              ' a retriable timeout', node=nb.node)
-  ctx.floor(rule, 3)
+  ctx.floor(rule, 4)
+
+
+def r5(ctx: Ctx):
+  rule = 'R-C14-5'
+  ctx.rule(rule, 'unique handles: the id allocator of lazy (server-held)'
+           ' objects draws from an atomic iterator (next() on itertools.count)'
+           ' or holds a lock — never a read-modify-write of a plain field'
+           ' (concurrent handler threads would hand two objects the same id)')
+  repo = ctx.repo
+  fi = repo.func(LF, 'IncrementId.__next__')
+  rmw = []
+  for x in walk_no_nested(fi.node):
+    if isinstance(x, ast.AugAssign) and is_self_attr(x.target):
+      rmw.append(x)
+    if isinstance(x, ast.Assign) and is_self_attr(x.targets[0]):
+      f = x.targets[0].attr
+      if any(is_self_attr(y, f) for y in ast.walk(x.value)):
+        rmw.append(x)
+  locked = any(isinstance(w, ast.With) and 'lock' in unparse(w.items[0].context_expr).lower()
+               for w in walk_no_nested(fi.node))
+  atomic = any(isinstance(x, ast.Call) and unparse(x.func) == 'next' and x.args
+               and is_self_attr(x.args[0]) for x in walk_no_nested(fi.node))
+  fld = [f for f in repo.cls(LF, 'IncrementId').fields if f.name == '_inc_iter']
+  count_src = bool(fld) and fld[0].default_factory is not None and 'count' in unparse(fld[0].default_factory)
+  if rmw and not locked:
+    ctx.fail(rule, fi, rmw[0], 'ids are produced by an unlocked read-modify-write'
+             f' (`{unparse(rmw[0])}`): two handler threads can obtain the same'
+             ' id, so one client\'s remote object resolves to another client\'s'
+             ' object')
+  elif (atomic and count_src) or locked:
+    ctx.ok(rule, fi, 'ids come from next(itertools.count) (atomic) or a locked section', fi.node)
+  else:
+    ctx.fail(rule, fi, 'IncrementId.__next__: next(self._inc_iter) over itertools.count',
+             'the id source is neither an atomic counter iterator nor protected'
+             ' by a lock', node=fi.node)
+  lo = repo.cls(LF, 'LazyObject')
+  idf = [f for f in lo.fields if f.name == '_id']
+  if idf and idf[0].default_factory is not None and 'next(_increment_id)' in unparse(idf[0].default_factory) and not idf[0].init:
+    ctx.ok(rule, lo.methods['new'], 'every LazyObject takes a fresh id from the allocator', lo.node)
+  else:
+    ctx.fail(rule, lo.methods['new'], 'LazyObject._id: field(default_factory=lambda: next(_increment_id), init=False)',
+             'lazy objects no longer take a fresh id from the shared allocator', node=lo.node)
+  ctx.floor(rule, 2)
 
 
 from mlmverif.selfcheck import B, OK  # noqa: E402
@@ -401,6 +478,12 @@ from mlmverif.selfcheck import B, OK  # noqa: E402
 _S = 'chainables/courier_server.py'
 _U = 'utils/courier_utils.py'
 VARIANTS = [
+    B('idle-shutdown-without-flag', _S,
+      '          self._shutdown_requested = True\n          break', '          break', 'R-C14-4'),
+    B('id-allocator-read-modify-write', 'chainables/lazy_fns.py',
+      '    next_id = next(self._inc_iter)\n    # Reset the id to mimic fixed length int.',
+      '    next_id = self._max_id and (self._base & 0)\n    self._base += 1\n    # Reset the id to mimic fixed length int.',
+      'R-C14-5'),
     B('bind-renamed', _S, "    self._server.Bind('clear_cache', transform.clear_cache)",
       "    self._server.Bind('clear_caches', transform.clear_cache)", 'R-C14-1'),
     B('client-kwarg-renamed', _U,
